@@ -173,6 +173,9 @@ def run(rep, tier, seed, replay=None):
     samples.append({'theorem': 'C14_refines : forall t o, WF t -> pre (abs t) o -> exists t\' out, step t o = Ok (t\', out) /\\ WF t\' /\\ '
                                '~ In (next_key t) (live (abs t)) /\\ spec_equiv (abs t\') (fst (spec_step (abs t) o (next_key t))) /\\ '
                                'out = snd (spec_step (abs t) o (next_key t))'})
+    samples.append({'theorem': 'C14_history_spec : forall os t, WF t -> spec_pre_run (abs t) os (run_keys t os) -> exists t\' outs, '
+                               'run t os = Ok (t\', outs) /\\ WF t\' /\\ spec_equiv (abs t\') (fst (spec_run (abs t) os (run_keys t os))) /\\ '
+                               'outs = snd (spec_run (abs t) os (run_keys t os))'})
     rep.cov['samples'] = samples
     # ---- search: the property stated directly on the implementation against the reference forest
     big = tier == 'thorough' or bool(rep.broken) or bool(changed)
